@@ -113,8 +113,11 @@ set_option maxRecDepth 100000
 /-- site kinds that are harmless by construction:
     `const-abi-type` — `whoops.Must(abi.NewType(<literal>))` on constant type strings;
     `codec-own-data` — Must(Un)marshal of values the chain itself wrote;
-    `narrowing-conversion-guarded` — `.Uint64()`/`.Int64()` behind an `IsUint64()`/`IsInt64()` test in the same function. -/
-def safeKinds : List String := ["const-abi-type", "codec-own-data", "narrowing-conversion-guarded"]
+    `narrowing-conversion-guarded` — `.Uint64()`/`.Int64()` behind an `IsUint64()`/`IsInt64()` test in the same function;
+    `index-guarded` — an index / slice expression `x[…]` in a function that tests `len(x)` (index expressions
+    whose index is the range / `i < len(x)` loop variable over `x` itself, over the slice `x` was allocated
+    from with `make(_, len(y))`, or a `sort.Slice(x, …)` callback parameter are not listed at all). -/
+def safeKinds : List String := ["const-abi-type", "codec-own-data", "narrowing-conversion-guarded", "index-guarded"]
 
 /-- every other potentially panicking construct reachable from a begin/end-blocker outside a
     `recover`, with the reason it cannot fire (key = function # construct) -/
@@ -131,16 +134,35 @@ def justified : List (String × String) := [
   ("x/paloma/keeper.Keeper.CheckChainVersion#panic(…)", "the deliberate version gate the property exempts"),
   ("x/valset/keeper.Keeper.isNewSnapshotWorthy#sdkmath.LegacyNewDecFromInt(sortedCurrent[i].ShareCount).QuoInt(currentSnapshot.TotalShares)", "only evaluated for a non-empty snapshot whose total is the sum of positive bonded stakes"),
   ("x/valset/keeper.Keeper.isNewSnapshotWorthy#sdkmath.LegacyNewDecFromInt(sortedNew[i].ShareCount).QuoInt(newSnapshot.TotalShares)", "only evaluated for a non-empty snapshot whose total is the sum of positive bonded stakes"),
-  ("x/valset/keeper.Keeper.isNewSnapshotWorthy#percentageCurrent.Sub(percentageNow).Abs().MustFloat64", "a difference of two fractions in [0,1]")
+  ("x/valset/keeper.Keeper.isNewSnapshotWorthy#percentageCurrent.Sub(percentageNow).Abs().MustFloat64", "a difference of two fractions in [0,1]"),
+  ("x/valset/keeper.Keeper.isNewSnapshotWorthy#sortedNew[i]", "i < len(sortedCurrent), and the function returned earlier unless both snapshots hold the same number of validators"),
+  ("x/evm/keeper.Keeper.routerAttester#consensusMsg.(*types.Message)", "the turnstone queue only stores *types.Message (WithStaticTypeCheck at PutMessageInQueue)"),
+  ("x/evm/keeper.Keeper.validatorBalancesAttester#consensusMsg.(*types.ValidatorBalancesAttestation)", "the validators-balances queue only stores that type (WithStaticTypeCheck at PutMessageInQueue)"),
+  ("x/evm/keeper.updateValsetAttester.attest#actionMsg.(*types.Message)", "messages of the same turnstone queue (static type check)"),
+  ("x/evm/keeper.compassHandoverAttester.Execute#a.msg.Action.(*types.Message_CompassHandover)", "the attester is constructed by routerAttester's type switch on this very action"),
+  ("x/evm/keeper.submitLogicCallAttester.Execute#a.msg.Action.(*types.Message_SubmitLogicCall)", "the attester is constructed by routerAttester's type switch on this very action"),
+  ("x/evm/keeper.updateValsetAttester.Execute#a.msg.Action.(*types.Message_UpdateValset)", "the attester is constructed by routerAttester's type switch on this very action"),
+  ("x/evm/keeper.uploadSmartContractAttester.Execute#a.msg.Action.(*types.Message_UploadSmartContract)", "the attester is constructed by routerAttester's type switch on this very action"),
+  ("x/evm/keeper.uploadUserSmartContractAttester.Execute#a.msg.Action.(*types.Message_UploadUserSmartContract)", "the attester is constructed by routerAttester's type switch on this very action"),
+  ("x/evm/keeper.uploadUserSmartContractAttester.attest#event[0]", "ASSUMPTION (governance-supplied, not validator-supplied): the compass ABI accepted by governance declares ContractDeployed with one non-indexed address, so a successful Unpack yields one value"),
+  ("x/evm/keeper.clampToZero#[]math.LegacyDec{math.LegacyZeroDec()}[0]", "index 0 of a one-element literal"),
+  ("x/evm/types.BuildCompassConsensus#sig.Signature[64]", "signatures are stored only after VerifySignature, whose Ecrecover refuses anything but 65 bytes (C06)"),
+  ("x/evm/types.BuildCompassConsensus#sig.Signature[:32]", "signatures are stored only after VerifySignature, whose Ecrecover refuses anything but 65 bytes (C06)"),
+  ("x/evm/types.BuildCompassConsensus#sig.Signature[32:64]", "signatures are stored only after VerifySignature, whose Ecrecover refuses anything but 65 bytes (C06)"),
+  ("x/evm/types.SubmitLogicCall.VerifyAgainstTX#[32]byte(append(padding, m.SenderAddress...))", "SenderAddress is an account (20) or contract (32) address set by ExecuteJob; injectSenderIntoPayload refuses > 32 bytes (C17)"),
+  ("x/evm/types.UploadUserSmartContract.VerifyAgainstTX#[32]byte(append(padding, m.SenderAddress...))", "SenderAddress is the 20-byte creator address"),
+  ("x/evm/types.ValidatorBalancesAttestation.Keccak256WithSignedMessage#m.HexAddresses[i]", "ValAddresses and HexAddresses are appended pairwise by CheckExternalBalancesForChain, the only constructor")
 ]
 
 def siteOk (s : Paloma.Gen.Panics.Site) : Bool :=
   safeKinds.contains s.kind || justified.any (fun j => j.1 == s.fn ++ "#" ++ s.what)
 
 /-- **panic_inventory_covered.** In the current source, every explicit `panic`, `Must*` call,
-narrowing conversion of an `sdkmath` value, `sdkmath` division, unchecked type assertion and
-slice-to-array conversion in a function reachable from a module's Begin/EndBlock entry point
-without passing a `recover` is a harmless kind or individually justified; and the skyway
+narrowing conversion of an `sdkmath` value, `sdkmath` division, unchecked type assertion,
+slice-to-array conversion and index / slice expression not bounded by its own loop, in a
+function reachable from a module's Begin/EndBlock entry point (calls, function values passed on,
+and the callback tables of package-level variables included) without passing a `recover`, is a
+harmless kind or individually justified; and the skyway
 end-blocker still installs its `recover`. A new unguarded conversion / Must / panic on the
 block path makes this `decide` fail. -/
 theorem panic_inventory_covered :
